@@ -78,3 +78,143 @@ Theorem C04_contains_generics_spec : forall ps t,
   contains_generics ps t = true <-> exists p, In p ps /\ Mentions.mentions p t.
 Proof. exact Mentions.contains_generics_spec. Qed.
 Print Assumptions C04_contains_generics_spec.
+
+(** ---- coverage-growth round: pinned below ---- *)
+From Verif Require Import Fmt.Front C05.Single C04.Consistency C04.Resolve C02.FrontProofs.
+
+(** body / bounds consistency, Display-like derives, EVERY combination of own and enum-level attribute: a bound [FieldTy: Tr] is in the where-clause iff the generated body formats a field of that (generic) type under [Tr] - through write!, through the text bound to [_variant] (own attribute or single field), through the enum-level format, or through a delegation *)
+Theorem C04_display_body_bounds_consistent :
+  forall cc : CharClass,
+  CC_ok cc ->
+  forall (d : dexpansion) (b : body),
+  fields_wf (d_fields d) ->
+  idents_wf (d_fields d) ->
+  d_generate_body cc d = ROk b ->
+  forall (id : N) (tr : trait),
+  In (BTy id tr) (d_generate_bounds cc d) <->
+  (exists f : field,
+  body_formats cc (d_fields d) b f tr /\ ftid f = id /\ contains_generics (d_params d) (fty f) = true).
+Proof. exact Consistency.display_body_bounds_consistent. Qed.
+Print Assumptions C04_display_body_bounds_consistent.
+
+(** ... plus exactly the user's bound(...) predicates, under every combination of attributes *)
+Theorem C04_display_user_bounds_any :
+  forall (cc : CharClass) (d : dexpansion) (id : N),
+  In (BUser id) (d_generate_bounds cc d) <-> In id (d_user_bounds d).
+Proof. exact Consistency.display_user_bounds_any. Qed.
+Print Assumptions C04_display_user_bounds_any.
+
+(** an attribute's body (delegation or write!) formats exactly what [bounded_types] infers from the attribute *)
+Theorem C04_attr_body_formats :
+  forall cc : CharClass,
+  CC_ok cc ->
+  forall (a : fmt_attr) (fs : fields) (f : field) (tr : trait),
+  idents_wf fs -> body_formats cc fs (attr_body cc a fs) f tr <-> attr_formats cc a fs f tr.
+Proof. exact Consistency.attr_body_formats. Qed.
+Print Assumptions C04_attr_body_formats.
+
+(** a delegating attribute has one placeholder, and the name [bounded_types] resolves it to is the name of the expression handed to Trait::fmt *)
+Theorem C04_transparent_name :
+  forall cc : CharClass,
+  CC_ok cc ->
+  forall (a : fmt_attr) (fs : fields) (e : texpr) (tr : trait),
+  idents_wf fs ->
+  transparent_call_on_fields cc a fs = Some (e, tr) ->
+  exists p0 : placeholder,
+  placeholders cc (lit a) = [p0] /\ ph_trait p0 = tr /\ placeholder_name a p0 = texpr_name e.
+Proof. exact Consistency.transparent_name. Qed.
+Print Assumptions C04_transparent_name.
+
+(** body / bounds consistency for Debug: struct-/variant-level format, or per field (shown as is: Debug of its type; field-level format: what its placeholders denote among ALL fields; skipped: nothing) *)
+Theorem C04_debug_body_bounds_consistent :
+  forall cc : CharClass,
+  CC_ok cc ->
+  forall (g : gexpansion) (b : gbody),
+  fields_wf (g_fields g) ->
+  idents_wf (g_fields g) ->
+  names_distinct (g_fields g) ->
+  count_ok (g_fields g) ->
+  g_generate_body cc g = ROk b ->
+  forall (id : N) (tr : trait),
+  In (BTy id tr) (g_generate_bounds cc g) <->
+  (exists f : field,
+  gbody_formats cc (g_fields g) b f tr /\ ftid f = id /\ contains_generics (g_params g) (fty f) = true).
+Proof. exact Resolve.debug_body_bounds_consistent. Qed.
+Print Assumptions C04_debug_body_bounds_consistent.
+
+(** Debug keeps exactly the user's predicates *)
+Theorem C04_debug_user_bounds :
+  forall (cc : CharClass) (g : gexpansion) (id : N),
+  In (BUser id) (g_generate_bounds cc g) <-> In id (g_user_bounds g).
+Proof. exact Resolve.debug_user_bounds. Qed.
+Print Assumptions C04_debug_user_bounds.
+
+(** name resolution is complete: the binding the expansion introduces for the k-th field ([_k] / the field's identifier) is resolved to the k-th field *)
+Theorem C04_binder_resolves :
+  forall (fs : fields) (k : nat) (f : field) (b : ident),
+  fields_wf fs ->
+  names_distinct fs ->
+  count_ok fs ->
+  nth_error (fl fs) k = Some f ->
+  nth_error (fmt_args_idents fs) k = Some b -> field_by_name fs (unraw b) = Some f.
+Proof. exact Resolve.binder_resolves. Qed.
+Print Assumptions C04_binder_resolves.
+
+(** name resolution is sound up to spelling: a resolved name is the name of that field's binding, or (tuples only) a spelling of the index that is no binding at all *)
+Theorem C04_field_by_name_sound :
+  forall (fs : fields) (name : ident) (f : field),
+  fields_wf fs ->
+  count_ok fs ->
+  field_by_name fs name = Some f ->
+  (exists (k : nat) (b : ident),
+  nth_error (fmt_args_idents fs) k = Some b /\ unraw b = name /\ nth_error (fl fs) k = Some f) \/
+  fk fs = Unnamed /\ (forall b : ident, In b (fmt_args_idents fs) -> unraw b <> name).
+Proof. exact Resolve.field_by_name_sound. Qed.
+Print Assumptions C04_field_by_name_sound.
+
+(** the unrestricted converse is false: [_00] is resolved to field 0 of a tuple although no binding has that name (such an expansion mentions an unknown name, so it does not compile) *)
+Theorem C04_field_by_name_noncanonical_refuted :
+  exists (fs : fields) (name : ident) (f : field),
+  fields_wf fs /\
+  field_by_name fs name = Some f /\ (forall b : ident, In b (fmt_args_idents fs) -> unraw b <> name).
+Proof. exact Resolve.field_by_name_noncanonical_refuted. Qed.
+Print Assumptions C04_field_by_name_noncanonical_refuted.
+
+(** the positional binding [_k] is read back as index k *)
+Theorem C04_unnamed_index_positional :
+  forall k : N, k <= usize_max -> unnamed_index (positional_ident k) = Some k.
+Proof. exact Resolve.unnamed_index_positional. Qed.
+Print Assumptions C04_unnamed_index_positional.
+
+(** several attributes on one item (Display-like): the predicates of ALL bound(...) attributes are kept, in source order; one format and one rename_all at most *)
+Theorem C04_bounds_of_several_attributes :
+  forall (name : str) (l : list raw_attr) (a : dattrs),
+  d_parse_attrs name l = ROk a ->
+  let cs := attrs_named name l in
+  Forall d_content_ok cs /\
+  (length (c_fmts cs) <= 1)%nat /\
+  (length (c_renames cs) <= 1)%nat /\
+  ca_fmt (da_common a) = hd_error (c_fmts cs) /\
+  ca_bounds (da_common a) = c_preds cs /\ da_rename a = the_rename cs.
+Proof. exact FrontProofs.d_parse_attrs_sound. Qed.
+Print Assumptions C04_bounds_of_several_attributes.
+
+(** the same for Debug's container attributes *)
+Theorem C04_debug_bounds_of_several_attributes :
+  forall (name : str) (l : list raw_attr) (a : cattrs),
+  c_parse_attrs name l = ROk a ->
+  let cs := attrs_named name l in
+  Forall c_content_ok cs /\
+  (length (c_fmts cs) <= 1)%nat /\ ca_fmt a = hd_error (c_fmts cs) /\ ca_bounds a = c_preds cs.
+Proof. exact FrontProofs.c_parse_attrs_sound. Qed.
+Print Assumptions C04_debug_bounds_of_several_attributes.
+
+(** whole-item statement for structs: the where-clause additions contain exactly the predicates written in the struct's bound(...) attributes of this derive *)
+Theorem C04_struct_user_bounds :
+  forall (cc : CharClass) (to_case : casing -> str -> str) (tr : trait) (it : ritem)
+  (fs : rfields) (arms : list (body * list bound)) (bs : list bound) (id : N),
+  ri_data it = RStruct fs ->
+  d_expand_item cc to_case tr it = ROk (arms, bs) ->
+  In (BUser id) bs <-> In id (c_preds (attrs_named (attr_name_of tr) (ri_attrs it))).
+Proof. exact FrontProofs.struct_user_bounds. Qed.
+Print Assumptions C04_struct_user_bounds.
